@@ -67,7 +67,7 @@ def configs(tier):
                     out.append(c)
     from checks import C03, C15
     for c in C03.configs(tier):
-        if c['graph'] in ('P3', 'D:3:01,12') and c['mode'] in ('plain', 'weight_label') and c['spec'] in ('SIS', 'SEIR'):
+        if c['graph'] in ('P3', 'D:3:01,12') and c['mode'] in ('plain', 'weight_label') and (c['spec'] in ('SIS', 'SEIR') or c.get('minimal_spec')):
             for full in (False, True):
                 out.append(dict(c, family='simple', full=full, tags=['simple'] + c['tags']))
     for c in C15.configs(tier):
